@@ -83,6 +83,18 @@ template <class It> std::vector<int> collect_valid(It it) {
   return v;
 }
 
+template <class Vec> bool is_rotation(const Vec &a, const Vec &b) {
+  if (a.size() != b.size()) return false;
+  size_t n = a.size();
+  if (n == 0) return true;
+  for (size_t r = 0; r < n; ++r) {
+    bool eq = true;
+    for (size_t i = 0; i < n && eq; ++i) eq = a[(i + r) % n] == b[i];
+    if (eq) return true;
+  }
+  return false;
+}
+
 struct C01Counters {
   uint64_t nonempty_answers = 0, queries = 0;
 };
